@@ -17,6 +17,7 @@ package main
 // closures, foreign types) makes the replay "not attempted".
 
 import (
+	"time"
 	"encoding/json"
 	"fmt"
 	"go/types"
@@ -49,6 +50,7 @@ type modelSession struct {
 	cache map[string]string
 	dir   string
 	n     int
+	start time.Time
 }
 
 func (m *modelSession) eval(terms []string) []string {
@@ -69,9 +71,15 @@ func (m *modelSession) eval(terms []string) []string {
 		need = need[n:]
 		q := m.query + "(get-value (" + strings.Join(batch, "\n") + "))\n"
 		m.n++
+		if m.start.IsZero() {
+			m.start = time.Now()
+		}
+		if m.n > 40 || time.Since(m.start) > 150*time.Second {
+			giveUp("materialising the model needs more than 40 solver runs or 150 s: replay given up (the obligation and the solver's model are reported)")
+		}
 		file := filepath.Join(m.dir, fmt.Sprintf("m%d.smt2", m.n))
 		os.WriteFile(file, []byte(q), 0o644)
-		out, _ := exec.Command("z3-new", "-T:60", file).CombinedOutput()
+		out, _ := exec.Command("z3-new", "-T:20", file).CombinedOutput()
 		text := string(out)
 		if !strings.HasPrefix(text, "sat") {
 			giveUp("model not reproducible: %s", truncate(text, 100))
